@@ -14,6 +14,7 @@ import (
 
 // Program is the loaded repository: type-checked packages and SSA of the working tree.
 type Program struct {
+	selfInsts map[*types.Named]types.Type
 	Prog  *ssa.Program
 	Pkg   *ssa.Package
 	TPkg  *types.Package
@@ -92,7 +93,48 @@ func (p *Program) funcNames() []string {
 
 // relType renders a type relative to the package under verification.
 func (p *Program) relType(t types.Type) string {
-	return types.TypeString(t, types.RelativeTo(p.TPkg))
+	return types.TypeString(p.canonT(t), types.RelativeTo(p.TPkg))
+}
+
+// canonT maps an instantiation of one of the package's generic types with concrete type arguments
+// (ShardedMapOf[error]) to the generic type itself: the generic code is verified once, with the type parameter
+// as an uninterpreted one-leaf type, and objects of every instantiation live in that layout.
+// selfInst: the generic type instantiated with its own type parameters (prints as ShardedMapOf[V]).
+func (p *Program) selfInst(g *types.Named) types.Type {
+	if p.selfInsts == nil {
+		p.selfInsts = map[*types.Named]types.Type{}
+	}
+	if t, ok := p.selfInsts[g]; ok {
+		return t
+	}
+	var targs []types.Type
+	for i := 0; i < g.TypeParams().Len(); i++ {
+		targs = append(targs, g.TypeParams().At(i))
+	}
+	t, err := types.Instantiate(nil, g, targs, false)
+	if err != nil {
+		t = g
+	}
+	p.selfInsts[g] = t
+	return t
+}
+
+func (p *Program) canonT(t types.Type) types.Type {
+	switch x := t.(type) {
+	case *types.Named:
+		if x.TypeArgs().Len() > 0 && x.Obj().Pkg() == p.TPkg {
+			for i := 0; i < x.TypeArgs().Len(); i++ {
+				if _, ok := x.TypeArgs().At(i).(*types.TypeParam); !ok {
+					return p.selfInst(x.Origin())
+				}
+			}
+		}
+	case *types.Pointer:
+		if c := p.canonT(x.Elem()); c != x.Elem() {
+			return types.NewPointer(c)
+		}
+	}
+	return t
 }
 
 func isPkgFunc(p *Program, f *ssa.Function) bool {
